@@ -26,7 +26,7 @@ theorem cfgRel_opcodePos {cx : Ctx} {e : SEE} {cfg : Spec.Cfg} (hc : CfgRel cx e
     CfgRel cx { e with opcodePos := n } cfg :=
   { flags := hc.flags, sv := hc.sv, z := hc.z, rm := hc.rm, sha256 := hc.sha256, ripemd160 := hc.ripemd160, sha1 := hc.sha1,
     checkLowS := hc.checkLowS, checkLockTime := hc.checkLockTime, checkSequence := hc.checkSequence,
-    ecdsa := hc.ecdsa, schnorr := hc.schnorr, pretendMap := hc.pretendMap, pretendKeys := hc.pretendKeys }
+    ecdsa := hc.ecdsa, schnorr := hc.schnorr, pretendKeys := hc.pretendKeys, pretendPair := hc.pretendPair }
 
 /-- an operation step of a session (no pending taproot commitment, position inside the script) -/
 theorem stepSession_op (cx : Ctx) (tc : TapCtx) (e : IEnv) (ht : e.tce = none) (hp : e.pc.isEmpty = false) :
